@@ -75,6 +75,9 @@ def World.stepR (cfg : Cfg) (w : World) : Step → World × Option HR
                       retry := if res == .added && needsRetry env n1 tx then [tx] else [] }
       (w.post env i r, some r)
 
+/-- the DAG of node `i` ([] if there is no such node) -/
+def World.dag (w : World) (i : Nat) : List Tx := ((w.nodes[i]?).map (·.dag)).getD []
+
 def World.step (cfg : Cfg) (w : World) (s : Step) : World := (w.stepR cfg s).1
 
 def World.run (cfg : Cfg) (w : World) (sched : List Step) : World := sched.foldl (World.step cfg) w
